@@ -13,8 +13,18 @@ package main
 // directions, the names both ends report and the destination tree.
 //
 // Direct oracles on the implementation (c.violate): success, names reported = names replied
-// = names created, MD5 on the wire = md5 of the source, ack steps monotone and bounded,
-// compressed stream decompresses to the content, destination = source.
+// = names created, MD5 on the wire = md5 of the source, ack lengths = frame lengths, ack steps
+// monotone and bounded, compressed stream decompresses to the content, destination = source,
+// both directions merged in the order of recording follow the protocol grammar.
+//
+// Case line:  transfer_transcript <cfg> <table> <dest> <fs> <dflt> <entries> <tags> => <canonical>
+//   cfg      proto:binary:directory:overwrite:compress:upload   (as announced in the CFG line)
+//   table    hex of the (byte, code) pairs of escape_chars in announcement order, - = none
+//   dest     64 (the path /d)            fs   d:64,f:64/<hex name>:<hex content>,d:64/<hex name>,...
+//   dflt     65536 (sc_dflt)
+//   entries  id;isdir;rel;content;md5;z;sizes;profit;steps;prefinal  joined by ","  (see m_transfer.ml)
+//   tags     one letter per message, both directions merged in recording order
+//   canonical  S=|R=|SN=|RN=|NEW=|SHAPE=|TREE=|C2S=<typed messages>|S2C=<typed messages>|ORDER=
 
 import (
 	"bytes"
@@ -612,7 +622,11 @@ func c01tMakeTree(rng *rand.Rand, root string, kind int, bigKind int) []string {
 		// one file at or above the size where the compression decision is no longer fixed
 		// (isCompressFixed: 128 KiB, compress auto, protocol >= 3): the sender says COMP
 		p := filepath.Join(root, "s", "big.bin")
-		mk(p, []int{131071, 131072, 131073 + rng.Intn(3000), 131073 + rng.Intn(3000)}[rng.Intn(4)], bigKind)
+		size := []int{131071, 131072, 131073 + rng.Intn(3000), 131073 + rng.Intn(3000)}[rng.Intn(4)]
+		if bigKind == 0 {
+			size = 262144 + rng.Intn(2000)
+		}
+		mk(p, size, bigKind)
 		tops = []string{p}
 		if rng.Intn(2) == 0 {
 			q := filepath.Join(root, "s", c01tNames[perm[0]])
@@ -831,9 +845,6 @@ func (tc *c01tCase) run(work string, idx int) {
 	evMu.Lock()
 	events = append([]c01tEvent(nil), events...)
 	evMu.Unlock()
-	if os.Getenv("C01T_DUMP") != "" {
-		fmt.Fprintf(os.Stderr, "==== %s\nC2S %q\nS2C %q\n", tc.desc, tailStr(string(res.wire[0]), 3000), tailStr(string(res.wire[1]), 3000))
-	}
 
 	// ---- success (cooperative, fault-free)
 	shown := res.serverOut
@@ -1165,6 +1176,8 @@ func (tc *c01tCase) run(work string, idx int) {
 		if e.comp != nil {
 			profit = *e.comp
 			tc.counts = append(tc.counts, "comp-flag:"+c01tB(profit))
+		} else if size >= 131072 {
+			tc.counts = append(tc.counts, "comp-flag:none(fixed)")
 		}
 		switch {
 		case size == 0:
@@ -1210,6 +1223,12 @@ func (tc *c01tCase) run(work string, idx int) {
 		tableArg(g.pairs), hx([]byte("d")), c01tFsArg(pre), fmt.Sprint(c01tDflt), strings.Join(entArgs, ","), tags,
 	}
 	tc.emit = true
+	for _, n := range replied {
+		if preTop[n] {
+			tc.counts = append(tc.counts, "replaced-or-entered-existing")
+			break
+		}
+	}
 	for _, e := range es {
 		if e.reply != "" && e.name.json && e.reply != e.name.rel[0] || !e.name.json && e.reply != e.name.plain {
 			tc.counts = append(tc.counts, "renamed-entry")
@@ -1412,12 +1431,13 @@ func genTransferTie(c *ctx) {
 			// The model's frame cutter (Wire.wire_frames_go) reverses every frame with Coq's quadratic
 			// List.rev: a 10240-byte frame costs about a second to evaluate, a 80 KiB one a minute.
 			// Quick tier: highly compressible content only (COMP:true, tiny frames).  Thorough: also
-			// text-like content and a few incompressible files (COMP:false, about 128 KiB on the wire,
-			// frames kept at the initial 10240 bytes by -B 1k).
+			// text-like content and two incompressible files of 256 KiB (isCompressionProfitable says
+			// no only when two sampled blocks of 128 KiB are incompressible: COMP:false, the content
+			// goes over the wire as it is, frames kept at the initial 10240 bytes by -B 1k).
 			tc.bigKind = 1
 			if c.thorough() {
-				switch nBig % 6 {
-				case 1, 4:
+				switch nBig % 12 {
+				case 1, 4, 7, 10:
 					tc.bigKind = 2
 				case 3:
 					tc.bigKind = 0
